@@ -68,6 +68,7 @@ def generate(rng, focus, tier="quick"):
         "quotes0": dict((a, _quote(rng, low=rng.random() < 0.25)) for a in assets),
         "np_quotes": rng.random() < 0.5,
         "np_str": rng.random() < 0.15,
+        "fresh_nan": rng.random() < 0.5,     # "no quote" as a fresh NaN object rather than the np.nan singleton
     }
     n_reb = rng.randrange(2, 9)
     enabled = set(k for k in FAULTS if rng.random() < 0.6)
@@ -87,6 +88,7 @@ def generate(rng, focus, tier="quick"):
             cfg["entries"][a] = (start - DAY) if r < 0.5 else ((start + rng.randrange(0, 20) * DAY + rng.choice([0, CLOSE_S, 17 * 3600])) if r < 0.9 else None)
         if rng.random() < 0.4:
             cfg["entry_tz"] = dict((a, rng.choice(["US/Eastern", "Asia/Tokyo", "UTC"])) for a in assets)
+        cfg["absent_as_nat"] = rng.random() < 0.4
     ops = []
     now = start
     last = dict((a, cfg["quotes0"][a][0]) for a in assets)
@@ -241,6 +243,7 @@ def _run(plan, ctx):
                 op["universe"] = [S_(a) for a in op["universe"]]
         ctx.probe("numpy_string_symbols")
     qb = QuoteBook(numpy_floats=cfg.get("np_quotes", False))
+    qb.fresh_nan = bool(cfg.get("fresh_nan"))
     for a, (b, k) in sorted(cfg["quotes0"].items()):
         qb.set(a, b, k)
     fee = cfg["fee"]
@@ -256,7 +259,9 @@ def _run(plan, ctx):
         uni = StaticUniverse(list(cfg["universe"]))
     elif uk == "dynamic":
         tzs = cfg.get("entry_tz") or {}
-        uni = DynamicUniverse(dict((a, ((ts(e).tz_convert(tzs[a]) if tzs.get(a) else ts(e)) if e is not None else None))
+        import pandas as _pd
+        absent = _pd.NaT if cfg.get("absent_as_nat") else None
+        uni = DynamicUniverse(dict((a, ((ts(e).tz_convert(tzs[a]) if tzs.get(a) else ts(e)) if e is not None else absent))
                                    for a, e in cfg["entries"].items()))
     else:
         uni = scripted = _Universe()
